@@ -129,9 +129,27 @@ def shaped_universe(quick):
                         yield _build(shape, iter(leaves))
 
 
+KEYS = ["a", "B", "é", "", "10", "9", "a b", "\U0001F600", "Z", "_"]
+
+
+def key_universe():
+    """Mappings whose KEYS exercise ordering (code point order, digits, upper/lower case, non-ASCII, empty)."""
+    vals = [0, "a", None, 1.0, [True]]
+    for r in (2, 3):
+        for ks in itertools.combinations(KEYS, r):
+            for shift in range(len(vals)):
+                yield {k: vals[(i + shift) % len(vals)] for i, k in enumerate(ks)}
+    for k in KEYS:
+        for k2 in KEYS:
+            if k != k2:
+                yield {k: {k2: 1, "a": 2}, "x": [{"n": 1}]} if k != "x" else {k: 1}
+
+
 def universe(tier):
     quick = tier == "quick"
     for v in flat_universe(quick):
+        yield v
+    for v in key_universe():
         yield v
     for v in shaped_universe(quick):
         yield v
